@@ -86,6 +86,22 @@ def plan(part, prop, tier, vseed, idx, avoid):
     return rs, script
 
 
+_LIVE = set()       # pids (= process group ids) of forked workers that are still running
+
+
+def _killpg(pid):
+    """kill whatever a finished worker left behind (pool workers, controllers) -- it led its own group"""
+    try:
+        os.killpg(pid, signal.SIGKILL)
+    except (ProcessLookupError, PermissionError, OSError):
+        pass
+    _LIVE.discard(pid)
+
+
+class WallLimit(Exception):
+    pass
+
+
 def isolated(script, session, prop=None, timeout=RUN_TIMEOUT):
     """Execute a script in a forked child.  Returns dict(status, failures, digest)."""
     r, w = os.pipe()
@@ -93,6 +109,7 @@ def isolated(script, session, prop=None, timeout=RUN_TIMEOUT):
     if pid == 0:
         try:
             os.close(r)
+            os.setsid()          # own process group: whatever the run leaves behind is killed with it
             faulthandler.dump_traceback_later(timeout, exit=True)
             env = Env(os.path.join(session, "iso"))
             os.makedirs(env.session_dir, exist_ok=True)
@@ -109,13 +126,40 @@ def isolated(script, session, prop=None, timeout=RUN_TIMEOUT):
             os._exit(0)
     os.close(w)
     chunks = []
-    with os.fdopen(r, "rb") as fh:
-        while True:
-            b = fh.read(1 << 16)
-            if not b:
+    # not "read until EOF": a process the run left behind may hold the write end open for ever
+    import select
+    os.set_blocking(r, False)
+    st = None
+    while True:
+        rd, _w, _x = select.select([r], [], [], 0.2)
+        if rd:
+            try:
+                b = os.read(r, 1 << 16)
+            except BlockingIOError:
+                b = None
+            if b:
+                chunks.append(b)
+                continue
+            if b == b"":
                 break
-            chunks.append(b)
-    _, st = os.waitpid(pid, 0)
+        if st is None:
+            p_, s_ = os.waitpid(pid, os.WNOHANG)
+            if p_ == pid:
+                st = s_
+                # drain what is left, then stop
+                while True:
+                    try:
+                        b = os.read(r, 1 << 16)
+                    except BlockingIOError:
+                        break
+                    if not b:
+                        break
+                    chunks.append(b)
+                break
+    os.close(r)
+    if st is None:
+        _, st = os.waitpid(pid, 0)
+    _killpg(pid)
     data = b"".join(chunks)
     if data:
         try:
@@ -172,7 +216,9 @@ def run_batch(part, prop, tier, vseed, start, count, env, open_entries, spot_eve
         if spot_every and idx % spot_every == 0 and not getattr(eng, "NO_SPOT", False):
             run2 = execute(script, env, prop)
             S["spot"] += 1
-            if run2.digest() != dg:
+            # an inconclusive pool run (the real dispatch did not follow the model within the watchdog) is
+            # timing dependent by nature; it is counted as inconclusive, not as nondeterminism of the harness
+            if run2.digest() != dg and not (run.inconclusive or run2.inconclusive):
                 S["spot_mismatch"].append(idx)
         faulthandler.cancel_dump_traceback_later()
         S["runs"] += 1
@@ -213,6 +259,9 @@ def run_batch(part, prop, tier, vseed, start, count, env, open_entries, spot_eve
 def _worker(wid, part, prop, tier, vseed, batches, counter, lock, deadline, session,
             open_entries, outpath, nviol):
     signal.signal(signal.SIGINT, signal.SIG_DFL)
+    signal.signal(signal.SIGALRM, signal.SIG_DFL)
+    signal.alarm(0)
+    os.setsid()
     env = Env(session)
     with open(outpath, "ab") as out:
         while True:
@@ -279,9 +328,11 @@ def run_part(part, prop, tier, vseed, n_runs, jobs, wall_cap, session, open_entr
                 os._exit(3)
             os._exit(0)
         pids[pid] = outpath
+        _LIVE.add(pid)
     dead = []
     for pid, outpath in pids.items():
         _, st = os.waitpid(pid, 0)
+        _killpg(pid)
         if st != 0:
             dead.append((pid, st, outpath))
     done = {}
@@ -366,6 +417,15 @@ def check(prop, tier, spec, vseed, jobs, build_info, log=print):
     harness_errors = []
     violations = []
     scale = float(os.environ.get("VERIF_SCALE", "1"))
+    # last resort: the whole check has a wall limit (per-part caps + watchdog periods + minimisation); if
+    # it is ever hit, everything forked is killed and the check ends as a harness error, never as exit 0
+    limit = int(sum(part.get("cap_" + tier, spec.get("cap_" + tier, 120 if tier == "quick" else 3000))
+                    for part in spec["parts"]) + 3 * RUN_TIMEOUT + (600 if tier == "quick" else 1800))
+
+    def _on_alarm(signum, frame):
+        raise WallLimit()
+    old_handler = signal.signal(signal.SIGALRM, _on_alarm)
+    signal.alarm(limit)
     try:
         for part in spec["parts"]:
             n = max(1, int(part[tier] * scale))
@@ -504,7 +564,16 @@ def check(prop, tier, spec, vseed, jobs, build_info, log=print):
             log("HARNESS-ERROR: no run completed")
             return 2
         return 0
+    except WallLimit:
+        for pid in list(_LIVE):
+            _killpg(pid)
+        log("HARNESS-ERROR: the check did not finish within its wall limit of %d s; all forked processes were killed" % limit)
+        return 2
     finally:
+        signal.alarm(0)
+        signal.signal(signal.SIGALRM, old_handler)
+        for pid in list(_LIVE):
+            _killpg(pid)
         shutil.rmtree(session, ignore_errors=True)
 
 
